@@ -657,6 +657,71 @@ def reentrant_purity(ctx, codes, jobs, rng, runs, cls="reentrant_calls", max_poi
         hooks.uninstall()
 
 
+def fault_purity(ctx, codes, jobs, rng, runs, cls="after_interrupted_call", max_points=10, exc_types=(KeyboardInterrupt, MemoryError)):
+    """Functions that are pure by contract: call A is interrupted (KeyboardInterrupt / MemoryError raised at one of its line events - what
+    Ctrl-C or an allocation failure does), then A again and another call B run undisturbed on the same thread; both must give their
+    sequential results.  Scratch state, memos or switches that an interrupted call leaves half-updated show in the NEXT call.  jobs as
+    for concurrent_purity: (label, callable, args, expected value or predicate)."""
+    hooks = LineHooks()
+    hooks.install(codes, None)
+    st = {"n": 0, "at": None, "exc": None, "fired": False}
+
+    def cb(code, line):
+        st["n"] += 1
+        if st["n"] == st["at"]:
+            st["fired"] = True
+            raise st["exc"]("injected by the fault monitor at line %d of %s" % (line, code.co_name))
+    hooks.free_running = cb
+
+    def judge(job, role):
+        label, fn, args, expected = job
+        sa = args if len(repr(args)) < 200 else "(...)"
+        try:
+            r = fn(*args)
+        except Exception as e:
+            ctx.violation("raises_after_interrupted_call:" + label, "%s%r raised %s: %s %s" % (label, sa, type(e).__name__, e, role), dict(job=label))
+            return
+        good = expected(r) if callable(expected) else r == expected
+        if not good:
+            ctx.violation("wrong_after_interrupted_call:" + label, "%s%r = %r %s, sequential result %r" % (label, sa, r, role, None if callable(expected) else expected), dict(job=label))
+    try:
+        for _ in range(runs):
+            A = jobs[rng.randrange(len(jobs))]
+            B = jobs[rng.randrange(len(jobs))]
+            st.update(n=0, at=None, fired=False)
+            try:
+                A[1](*A[2])
+            except Exception:
+                continue
+            N = st["n"]
+            if N == 0:
+                ctx.count(cls + ".no_line_events")
+                continue
+            pts = list(range(1, N + 1)) if N <= max_points else sorted(rng.sample(range(1, N + 1), max_points))
+            for k in pts:
+                et = exc_types[rng.randrange(len(exc_types))]
+                st.update(n=0, at=k, exc=et, fired=False)
+                try:
+                    A[1](*A[2])
+                    ctx.count(cls + ".fault_swallowed")
+                except ShardStopLike:
+                    raise
+                except BaseException:
+                    pass
+                finally:
+                    st["at"] = None
+                if not st["fired"]:
+                    ctx.count(cls + ".injection_point_not_reached")
+                    continue
+                ctx.case(cls, key="%s->%s|%d" % (A[0], B[0], min(k, 12)), nontrivial=True)
+                role = "after %s was interrupted by %s at its line event %d" % (A[0], et.__name__, k)
+                judge(B, role)
+                judge(A, role)
+    finally:
+        hooks.free_running = None
+        hooks.uninstall()
+
+
 class InjectedFault(BaseException):
     """Not used as the injected type itself (a library cannot be expected to know it); marks harness-side bookkeeping only."""
 
